@@ -242,3 +242,14 @@ Proof.
   specialize (Hprop i Hi). rewrite HP in Hprop. unfold bayes_unnorm in Hprop. rewrite (Hc i Hi) in Hprop.
   apply (Qmult_inj_r _ _ c); [lra|]. rewrite Hprop. ring.
 Qed.
+
+(* ------------------------------------------------------------------ without the row-sum hypothesis *)
+(* for ANY tables: the unnormalised filter summed over the observations is the prediction times the row
+   sum of O; so a model whose observation rows sum to 1 - d (a sparse model that dropped mass d) loses
+   exactly the fraction d of the predicted mass, and nothing else *)
+Lemma obs_total_general_lemma : forall m b a s',
+  qsum (map (fun o => bayes_unnorm m b a o s') (obss m)) == pred_at m b a s' * qsum (map (fun o => Op m s' a o) (obss m)).
+Proof.
+  intros m b a s'. unfold bayes_unnorm.
+  rewrite (qsum_map_scale_r nat (fun o => Op m s' a o) (pred_at m b a s') (obss m)). ring.
+Qed.
